@@ -63,6 +63,9 @@ func c11Programs() []seqDef {
 	for _, n := range []int{0, 1, 3, 4, 5, 39, 40, 41, 4999, 5000, 5001} {
 		progs = append(progs, seqDef{fmt.Sprintf("big:V().has(lt(idx,%d))", n), q.V().Has(lt(n)).Statements})
 	}
+	// rows of 70 KB and 1.2 MB among small ones (the stored results are read back line by line)
+	progs = append(progs, seqDef{"wide:V()", q.V().Statements}, seqDef{"wide:V().as(a).out().select(a)", q.V().As("a").Out().Select("a").Statements},
+		seqDef{"wide:V().has(lt(idx,8)).fields(idx)", q.V().Has(lt(8)).Fields("idx").Statements})
 	progs = append(progs, seqDef{"big:V().has(lt(idx,41)).as(a).render", flat(q.V().Has(lt(41)).As("a").Statements, []*gripql.GraphStatement{renderStmt("$a.idx")})})
 	return progs
 }
@@ -76,6 +79,9 @@ func c11Gen(g *fw.GenCtx) []fw.Case {
 			if g.Quick() && (strings.Contains(p.Name, "4999") || strings.Contains(p.Name, "5001")) {
 				continue
 			}
+		}
+		if strings.HasPrefix(p.Name, "wide:") {
+			gr = "wide"
 		}
 		cases = append(cases, fw.MkCase("job", c11Case{Stmts: gq.StmtJSON(p.Stmts), Name: p.Name, Graph: gr}))
 	}
@@ -146,6 +152,19 @@ func c11Populate(ls *gq.LiveServer) {
 		vs = append(vs, &gdbi.Vertex{ID: fmt.Sprintf("b%d", i), Label: "B", Data: map[string]interface{}{"idx": float64(i)}, Loaded: true})
 	}
 	gi.AddVertex(vs)
+	ls.E.AddGraph(ctx, &gripql.GraphID{Graph: "wide"})
+	wi, _ := ls.DB.Graph("wide")
+	for i := 0; i < 12; i++ {
+		d := map[string]interface{}{"idx": float64(i)}
+		switch i {
+		case 3:
+			d["blob"] = strings.Repeat("x", 70*1024)
+		case 7:
+			d["blob"] = strings.Repeat("y", 1200*1024)
+		}
+		wi.AddVertex([]*gdbi.Vertex{{ID: fmt.Sprintf("w%d", i), Label: "W", Data: d, Loaded: true}})
+		wi.AddEdge([]*gdbi.Edge{{ID: fmt.Sprintf("we%d", i), Label: "r", From: fmt.Sprintf("w%d", i), To: fmt.Sprintf("w%d", (i+1)%12), Loaded: true}})
+	}
 }
 
 func c11Setup(w *fw.Worker) *c11Env {
@@ -475,7 +494,7 @@ func c11Restart(w *fw.Worker, env *c11Env, cc c11Case) fw.Result {
 func init() {
 	fw.Register(&fw.Property{
 		ID:   "C11",
-		Rule: "on the Job service of a live server (gRPC): for 30 hand-picked traversals covering every result type plus 80 / 1500 random traversals from the C01 program space (vertices, edges, count, selection of mixed vertex/edge marks, render, path, aggregation, marks, a mark/jump loop) and result sizes 0,1,3,4,5,39,40,41,5000 (4999/5001 in thorough; worker pool 4, channels 10/40, pipeline buffer 5000): the rows ViewJob returns for the completed job equal, as a multiset, the rows of the direct traversal, Status.Count equals their number, and for EVERY split point s with an element-typed prefix ResumeJob(job(P[:s]), P[s:]) equals direct P; a search scenario (12 jobs on 2 graphs, 17 queries) against a prefix-match model; a restart scenario (server stopped and started again on the same directories: jobs listed, status, readable, resumable) followed by deletion (not listed, not readable, files gone). Completion is awaited by polling GetJob a bounded number of times.",
+		Rule: "on the Job service of a live server (gRPC): for 30 hand-picked traversals covering every result type plus 80 / 1500 random traversals from the C01 program space (vertices, edges, count, selection of mixed vertex/edge marks, render, path, aggregation, marks, a mark/jump loop) rows of 70 KB and 1.2 MB, and result sizes 0,1,3,4,5,39,40,41,5000 (4999/5001 in thorough; worker pool 4, channels 10/40, pipeline buffer 5000): the rows ViewJob returns for the completed job equal, as a multiset, the rows of the direct traversal, Status.Count equals their number, and for EVERY split point s with an element-typed prefix ResumeJob(job(P[:s]), P[s:]) equals direct P; a search scenario (12 jobs on 2 graphs, 17 queries) against a prefix-match model; a restart scenario (server stopped and started again on the same directories: jobs listed, status, readable, resumable) followed by deletion (not listed, not readable, files gone). Completion is awaited by polling GetJob a bounded number of times.",
 		Assumptions: []string{
 			"only jobs whose rows are vertices or edges are resumed (the docs resume element streams)",
 			"job completion is awaited by polling; a job that is still running after the polling budget makes the case inconclusive, not violated",
